@@ -75,9 +75,14 @@ fn limits(s: &mut Src, ty: &RType) -> (Option<LimitVal>, Option<LimitVal>) {
         3 => {
             // equal
             let v = *s.pick(&[0i64, 5, 255]);
-            match s.weighted(&[1, 1]) {
+            match s.weighted(&[3, 3, 1]) {
                 0 => (Some(LimitVal::I(v)), Some(LimitVal::I(v))),
-                _ => (Some(LimitVal::D(F64(v as f64))), Some(LimitVal::D(F64(v as f64)))),
+                1 => (Some(LimitVal::D(F64(v as f64))), Some(LimitVal::D(F64(v as f64)))),
+                _ => {
+                    // both limits the same infinity: still a degenerate range, only "a number in [0,1]" is asserted
+                    let inf = if s.flag() { f64::INFINITY } else { f64::NEG_INFINITY };
+                    (Some(LimitVal::D(F64(inf))), Some(LimitVal::D(F64(inf))))
+                }
             }
         }
         4 => {
